@@ -136,11 +136,17 @@ func (e *Env) appendCall(x *ast.CallExpr, rt types.Type) Value {
 		return e.unknown(rt, "append")
 	}
 	if s.ElemU {
-		for _, a := range x.Args[1:] {
-			e.expr(a)
+		if x.Ellipsis.IsValid() {
+			e.expr(x.Args[1])
+			e.errorf("%s: append(s, t...) on slices of opaque elements not modelled", e.w.pos(x.Pos()))
+			return e.unknown(rt, "append")
 		}
-		e.errorf("%s: append on slice of opaque elements not modelled", e.w.pos(x.Pos()))
-		return e.unknown(rt, "append")
+		var elems []*Term
+		et := rt.Underlying().(*types.Slice).Elem()
+		for _, a := range x.Args[1:] {
+			elems = append(elems, e.box(e.coerce(e.expr(a), et)))
+		}
+		return e.appendU(s, elems, rt)
 	}
 	var view, rel, n *Term
 	if x.Ellipsis.IsValid() {
@@ -161,6 +167,43 @@ func (e *Env) appendCall(x *ast.CallExpr, rt types.Type) Value {
 		view, rel, n = e.tmp(arr), IntLit(0), IntLit(int64(len(x.Args)-1))
 	}
 	return e.appendSeq(s, view, rel, n, rt)
+}
+
+// appendU implements append(s, x1, ..., xn) on the memory of opaque elements (MemU): in place when the capacity
+// allows, else into a fresh array that starts with the old elements.
+func (e *Env) appendU(s Value, elems []*Term, rt types.Type) Value {
+	n := IntLit(int64(len(elems)))
+	fits := e.tmp(Le(Add(s.Len, n), s.Cap))
+	oldA := e.tmp(Select(e.memU(), s.Ref))
+	newRef := e.tmp(Ite(fits, s.Ref, e.nextRef()))
+	newOff := e.tmp(Ite(fits, s.Off, IntLit(0)))
+	newCap := e.fresh("appcap", SInt)
+	newLen := e.tmp(Add(s.Len, n))
+	e.assume(Implies(fits, Eq(newCap, s.Cap)))
+	e.assume(Implies(Not(fits), And(Ge(newCap, newLen), Le(newCap, Lit(sizeBound, SInt)))))
+	e.assume(Le(newLen, Lit(sizeBound, SInt)))
+	newA := e.fresh("apparrU", SArrU)
+	k := Bound("k$", SInt)
+	lo := e.tmp(Add(newOff, s.Len))
+	inNew := And(Le(lo, k), Lt(k, Add(lo, n)))
+	for i, el := range elems {
+		e.assume(Eq(Select(newA, Add(lo, IntLit(int64(i)))), el))
+	}
+	e.assume(Forall([]*Term{k}, And(
+		Implies(And(fits, Not(inNew)), Eq(Select(newA, k), Select(oldA, k))),
+		Implies(And(Not(fits), Le(IntLit(0), k), Lt(k, s.Len)), Eq(Select(newA, k), Select(oldA, Add(s.Off, k)))))))
+	// the same on the views through which elements are read (instantiation help only)
+	{
+		t := Bound("t$", SInt)
+		nv, ov := App("shiftU", SArrU, newA, newOff), App("shiftU", SArrU, oldA, s.Off)
+		e.assume(Forall([]*Term{t}, Implies(And(Le(IntLit(0), t), Lt(t, s.Len)), Eq(Select(nv, t), Select(ov, t)))))
+		for i, el := range elems {
+			e.assume(Eq(Select(nv, Add(s.Len, IntLit(int64(i)))), el))
+		}
+	}
+	e.assign("MemU", SMemU, Store(e.memU(), newRef, newA))
+	e.assign("$nextRef", SInt, Ite(fits, e.nextRef(), Add(e.nextRef(), IntLit(1))))
+	return Value{K: VSlice, Ref: newRef, Off: newOff, Len: newLen, Cap: newCap, Typ: rt, ElemU: true}
 }
 
 // appendSeq implements append(s, t...) on the byte memory; the appended
